@@ -3,6 +3,8 @@ Float fingerprints only *select* candidates and supply replayable points for vio
 import math
 import time
 
+from .sx2smt import emb, RZ
+
 
 def close(a, b, tol=1e-9):
     if a is None or b is None:
@@ -10,6 +12,16 @@ def close(a, b, tol=1e-9):
     if math.isnan(a) or math.isnan(b):
         return False
     return abs(a - b) <= tol * max(1.0, abs(a), abs(b))
+
+
+def fpdist(a, b):
+    """max relative distance of two fingerprint vectors"""
+    m = 0.0
+    for x, y in zip(a, b):
+        if x is None or y is None or math.isnan(x) or math.isnan(y):
+            return float('inf')
+        m = max(m, abs(x - y) / max(1.0, abs(x), abs(y)))
+    return m
 
 
 class Checker:
@@ -20,6 +32,7 @@ class Checker:
         self.z3 = z3 = inst.z3
         self.s = z3.Solver()
         self.s.set('timeout', timeout_ms)
+        self.timeout_ms = timeout_ms
         for h in hyps:
             self.s.add(h)
         self.hyps = list(hyps)
@@ -30,16 +43,21 @@ class Checker:
         self.nontrivial = set()
 
     # -- primitive -------------------------------------------------------------------------
-    def neq(self, a, b):
+    def neq(self, a, b, timeout_ms=None):
         """'unsat' iff a == b for all values (under hyps)"""
         z3 = self.z3
+        a, b = emb(a), emb(b)
         t0 = time.time()
         if t0 - self.t_start > self.budget_s:
             self.stats['unknown'] = self.stats.get('unknown', 0) + 1
             return 'unknown', None
         self.s.push()
-        self.s.add(a != b)
+        self.s.add(z3.simplify(a - b) != 0)
+        if timeout_ms is not None:
+            self.s.set('timeout', timeout_ms)
         r = str(self.s.check())
+        if timeout_ms is not None:
+            self.s.set('timeout', self.timeout_ms)
         m = None
         if r == 'sat':
             try:
@@ -62,6 +80,9 @@ class Checker:
 
     def _vars(self, t):
         z3 = self.z3
+        t = emb(t)
+        if isinstance(t, (int, float)):
+            return set()
         seen = set()
         out = set()
         stack = [t]
@@ -92,22 +113,34 @@ class Checker:
 
     # -- identities ------------------------------------------------------------------------
     def prove(self, label, a, b, kind='identity'):
-        """a, b: dict domain -> value ('z' and point indices).  Records outcome; returns bool."""
+        """a, b: dict domain -> value ('z' and point indices).  Records outcome; returns bool.
+        Only the solver decides; a fingerprint disagreement just tells which point to replay."""
         pts = [d for d in a if d != 'z']
+        bad = None
         for d in pts:
             if not close(a[d], b[d]):
-                self.violations.append({'kind': kind, 'label': label, 'point': d,
-                                        'impl': a[d], 'ref': b[d], 'how': 'fingerprint'})
-                return False
-        r, m = self.neq(a['z'], b['z'])
+                bad = d
+                break
+        if bad is not None and fpdist([a[d] for d in pts], [b[d] for d in pts]) > 1e-3:
+            self.violations.append({'kind': kind, 'label': label, 'point': bad,
+                                    'impl': a[bad], 'ref': b[bad], 'how': 'fingerprint'})
+            return False
+        r, m = self.neq(a['z'], b['z'], timeout_ms=2000 if bad is not None else None)
+        if r != 'unsat' and bad is not None:
+            self.violations.append({'kind': kind, 'label': label, 'point': bad, 'how': 'fingerprint (solver: %s)' % r,
+                                    'impl': a[bad], 'ref': b[bad]})
+            return False
         if r == 'unsat':
             self.proved.append(label)
             vs = self._vars(a['z'])
             if vs:
                 self.nontrivial.add(label)
+            if bad is not None:
+                self.stats['fp_noise'] = self.stats.get('fp_noise', 0) + 1
             return True
         if r == 'sat':
-            self.violations.append({'kind': kind, 'label': label, 'point': None, 'how': 'solver-model',
+            self.violations.append({'kind': kind, 'label': label, 'point': bad, 'how': 'solver-model' if bad is None else 'fingerprint+solver',
+                                    'impl': a[bad] if bad is not None else None, 'ref': b[bad] if bad is not None else None,
                                     'model': self.model_point(m) if m is not None else None})
             return False
         self.inconclusive.append({'label': label, 'why': 'solver ' + r})
@@ -127,22 +160,34 @@ class Checker:
         for j in range(nr):
             kind = ref['z'][j][0]
             found = None
+            cands = []
             for i in range(ni):
                 if used[i] or impl['z'][i][0] != kind:
                     continue
                 for sgn in ((1, -1) if kind == 'eq' else (1,)):
-                    if all(close(impl[d][i][1], sgn * ref[d][j][1]) for d in pts):
-                        r, m = self.neq(impl['z'][i][1], sgn * ref['z'][j][1])
-                        if r == 'unsat':
-                            found = i
-                            break
-                        if r != 'sat':
-                            self.inconclusive.append({'label': ref['z'][j][2], 'why': 'solver ' + r})
-                        else:
-                            # fingerprints agree, solver says they differ somewhere: keep the model
-                            self._last_model = (ref['z'][j][2], impl['z'][i][2], self.model_point(m) if m else None)
-                if found is not None:
+                    dist = fpdist([impl[d][i][1] for d in pts], [sgn * ref[d][j][1] for d in pts])
+                    if dist <= 1e-3:
+                        cands.append((dist, i, sgn))
+            cands.sort()
+            # exact-fingerprint candidates first; then (ill-conditioned float evaluation) up to 3 near misses
+            tried_far = 0
+            for dist, i, sgn in cands:
+                far = dist > 1e-9
+                if far:
+                    if tried_far >= 2:
+                        break
+                    tried_far += 1
+                r, m = self.neq(impl['z'][i][1], sgn * emb(ref['z'][j][1]), timeout_ms=2000 if far else None)
+                if r == 'unsat':
+                    found = i
+                    if dist > 1e-9:
+                        self.stats['fp_noise'] = self.stats.get('fp_noise', 0) + 1
                     break
+                if r != 'sat':
+                    if not far:
+                        self.inconclusive.append({'label': ref['z'][j][2], 'why': 'solver ' + r})
+                else:
+                    self._last_model = (ref['z'][j][2], impl['z'][i][2], self.model_point(m) if m else None)
             if found is None:
                 un_ref.append(j)
             else:
